@@ -71,6 +71,21 @@ def collect_samples(prop, seed, pool, n=2):
 
 def _spaces(prop, cover):
     """Coverage of the systematically enumerated sub-spaces (C13): distinct members executed."""
+    if prop == "C16":
+        from . import plan_c16
+
+        sizes = {"arch": len(plan_c16.enum_arch()), "rule": len(plan_c16.enum_rule())}
+        seen = {k: 0 for k in sizes}
+        for tag in cover:
+            seen[tag.split(":")[0]] += 1
+        what = {"arch": "all LayeredArchitecture builder sequences of length <= 6 over {layer(LA|LB), "
+                        "containing_modules(str|[str]|[2 names] over pk.m1, pk.m2), "
+                        "have_modules_with_names_matching(2 regexes), with_layer()} whose proper "
+                        "prefixes the model accepts",
+                "rule": "all LayerRule call-chain prefixes of length <= 6 over {based_on, layers_that, "
+                        "are_named(LA|LB|[LA,LB]), 3 verbs, 4 access types, 2 any-layer aliases}"}
+        return {k: {"executed_distinct": seen[k], "size": sizes[k], "what": what[k],
+                    "complete": seen[k] == sizes[k]} for k in sizes}
     if prop != "C13":
         return {}
     from . import plan_c13
@@ -96,7 +111,8 @@ def write(prop, tier, seed, run, out, samples, known_hit, reported, source):
         "samples": samples,
         "runs": out["plans_done"],
         "distinct_schedules": out["distinct_schedules"],
-        "seeds": {"VERIF_SEED": seed, "plan_indices": [0, run.n_plans - 1],
+        "seeds": {"VERIF_SEED": seed, "plan_indices": [run.indices[0], run.indices[-1]],
+                  "plan_count": run.n_plans,
                   "hash_seeds_used": len(out["hashseeds"]),
                   "hash_seeds_sample": out["hashseeds"][:16],
                   "distinct_set_iteration_orders_observed": out["distinct_hash_orders"]},
